@@ -57,8 +57,8 @@ Section Inv.
   Hypothesis pl_local : forall p l, In p (pl_apply pl) -> p_local p = Some l -> l_id l = p_id p.
   (* the status watcher does not lie about objects held by a finalizer *)
   Hypothesis fin_deliv : forall w o, In w (e_waits (sc_env sc)) -> In o (w_deliv w) -> finok sc c0 o.
-  Notation cacheok := (cacheok sc c0).
-  Notation ling := (ling sc c0).
+  Notation cacheok := (cacheok sc c0 aids).
+  Notation ling := (ling sc c0 aids).
 
   (* a UID that object i may legitimately carry: the one it had before the run, or a fresh one *)
   Definition okuid (i : id) (u : N) : Prop :=
@@ -169,7 +169,7 @@ Section Inv.
 
   (* ---- the per-identifier invariant is local ------------------------------------------- *)
   Lemma ling_tv s s' j : tv s' j = tv s j -> ling s j -> ling s' j.
-  Proof. intros E [UF [c' [H0 HT]]]. split; [exact UF|]. exists c'. split; [exact H0|]. rewrite E. exact HT. Qed.
+  Proof. intros E [UF [NA [c' [H0 HT]]]]. split; [exact UF|]. split; [exact NA|]. exists c'. split; [exact H0|]. rewrite E. exact HT. Qed.
 
   Lemma rcok_mono s s' tw tw' j : rc s' j = rc s j -> (In j tw -> In j tw') -> rcok s tw j -> rcok s' tw' j.
   Proof. unfold rcok. intros -> H. tauto. Qed.
@@ -329,13 +329,17 @@ Section Inv.
     - right. eapply N.le_trans; eassumption.
   Qed.
 
+  (* an object of an apply layer as the plan builds it: a manifest of the apply set whose references are
+     among its dependencies in the graph (so that the dependency filter has looked at every source the
+     apply-time mutator looks up) *)
   Definition local_ok' (p : pobj) : Prop :=
-    exists l, p_local p = Some l /\ l_id l = p_id p /\ In (p_id p) aids.
+    exists l, p_local p = Some l /\ l_id l = p_id p /\ In (p_id p) aids /\
+              incl (l_deps l) (g_deps (pl_graph pl) (p_id p)).
 
   Lemma j_apply_one g td tw s p : local_ok' p ->
     stepj P1 (p_id p :: td) tw P1 td tw s (apply_one sc pl g s p).
   Proof.
-    intros [l [EL [EI Hi]]].
+    intros [l [EL [EI [Hi HG]]]].
     destruct (apply_one_spec sc pl g s p l EL EI) as [SA [a [u [gen [lt [ST [STR [SF SO]]]]]]]]. cbv zeta in *.
     set (i := p_id p) in *. set (s' := apply_one sc pl g s p) in *.
     exists (IEv (EApply g i (ast_of a)) :: lt). split; [exact STR|].
@@ -411,7 +415,15 @@ Section Inv.
         * intros X. contradiction.
         * intros _. exact Hi.
         * intros _ _. rewrite N1. discriminate.
-    - unfold PipelineOrphansWait.cacheok. unfold s'. rewrite cache_apply_one. exact A9.
+    - (* what the mutator Put into the cache is about sources that passed the dependency filter: apply ids *)
+      unfold PipelineOrphansWait.cacheok. unfold s'.
+      destruct (cache_apply_one sc pl g s p) as [ex [EC HX]]. rewrite EC. intros o Ho.
+      apply in_app_or in Ho. destruct Ho as [Ho|Ho]; [|exact (A9 o Ho)]. left.
+      destruct (HX o Ho) as [l0 [EL0 [_ [HS [_ DF]]]]]. rewrite EL in EL0. injection EL0 as <-.
+      destruct (dep_filter_pass_rec sc pl _ _ _ DF (s_id o) (HG _ HS)) as [_ [r [Lr [Sr _]]]].
+      assert (TVo : tv s (s_id o) = Some (SApply, r_act r, r_uid r)).
+      { unfold tv, tvl. unfold id in *. rewrite Lr. cbn [option_map]. unfold tcore. unfold id in *. rewrite Sr. reflexivity. }
+      exact (proj1 (L_app _ _ _ _ (A8 (s_id o)) _ _ _ TVo eq_refl)).
   Qed.
 
   Lemma j_apply_task g td tw s layer : Forall local_ok' layer ->
@@ -514,7 +526,7 @@ Section Inv.
         - (* accepted, the finalizer keeps the object *)
           rewrite C in H1. split; [exact H1|]. split; [rewrite SA, Hb; exact NOAB|]. intros _.
           split.
-          + split; [exact UF|]. exists c. split; [exact Hc0|]. rewrite TVi, Ha, EU. reflexivity.
+          + split; [exact UF|]. split; [exact NA|]. exists c. split; [exact Hc0|]. rewrite TVi, Ha, EU. reflexivity.
           + right; right. split; [exact RCi|exact HW]. }
       constructor; rewrite ?TVi.
       + intros c1 H1.
@@ -603,7 +615,7 @@ Section Inv.
     assert (CORE : Ij f td tw s -> Ij f td tw s' /\ (r_abort s' = false -> Ij f td tw' s')).
     { unfold Ij. destruct dry; [intros E; split; [|intros _]; congruence|].
       intros [A1 A2 A3 A4 A5 A6 A7 A8 A9].
-      destruct (wait_task_fin sc c0 c g ids s A9 fin_deliv) as [W1 [W2 [W3 W4]]]. fold s' in W1, W2, W3, W4.
+      destruct (wait_task_fin sc c0 aids c g ids s A9 fin_deliv) as [W1 [W2 [W3 W4]]]. fold s' in W1, W2, W3, W4.
       assert (MK : forall twx, (forall j, In j pids -> ling s j -> rcok s tw j -> rcok s' twx j) -> Big f td twx s').
       { intros twx HR. constructor; rewrite ?Q1, ?Q3; try assumption.
         intros j. apply (Loc_frame_rc s s' td td tw twx j l); try rewrite Q1; try rewrite Q2; try tauto.
